@@ -20,3 +20,181 @@ package state
 
 //@ func StateDB.Commit
 //@   keeps big
+
+// ---- journalling (C09) ------------------------------------------------------------------------
+// Every mutator appends, before changing anything, a journal entry holding the previous value;
+// every entry's undo writes that value back. The live object of an address is the observer
+// stobj(s, addr) (trusted: getStateObject returns the same object for the same address).
+//@ func StateDB.getStateObject
+//@   trusted
+//@   ensures stateObject == stobj(self, addr)
+//@   assigns nothing
+
+//@ macro top(j) = j[len(j)-1]
+//@ macro obj(s, a) = as(stobj(s, a), "*state.stateObject")
+
+//@ func stateObject.SetNonce
+//@   requires self != nil && self.db != nil
+//@   ensures[C09] @journal len(self.db.journal) == old(len(self.db.journal)) + 1 && typeis(top(self.db.journal), "state.nonceChange")
+//@     && unbox(top(self.db.journal), "state.nonceChange").prev == old(self.data.Nonce)
+//@     && unbox(top(self.db.journal), "state.nonceChange").account == addr(self.address)
+//@   ensures[C09] @value self.data.Nonce == nonce
+//@   ensures[C09] @older forall k int :: 0 <= k && k < old(len(self.db.journal)) ==> self.db.journal[k] == old(self.db.journal[k])
+//@   nopanic[C09]
+
+//@ func stateObject.SetBalance
+//@   requires self != nil && self.db != nil && self.data.Balance != nil && amount != nil
+//@   ensures[C09] @journal len(self.db.journal) == old(len(self.db.journal)) + 1 && typeis(top(self.db.journal), "state.balanceChange")
+//@     && big(unbox(top(self.db.journal), "state.balanceChange").prev) == old(big(self.data.Balance))
+//@     && unbox(top(self.db.journal), "state.balanceChange").prev != old(self.data.Balance)
+//@     && unbox(top(self.db.journal), "state.balanceChange").account == addr(self.address)
+//@   ensures[C09] @value self.data.Balance == amount
+//@   nopanic[C09]
+
+//@ func stateObject.touch
+//@   requires c != nil && c.db != nil
+//@   ensures[C09] @journal len(c.db.journal) == old(len(c.db.journal)) + 1 && typeis(top(c.db.journal), "state.touchChange")
+//@     && unbox(top(c.db.journal), "state.touchChange").prev == old(c.touched)
+//@     && unbox(top(c.db.journal), "state.touchChange").prevDirty == old(c.onDirty == nil)
+//@   ensures[C09] @value c.touched && c.onDirty == nil
+
+//@ func nonceChange.undo
+//@   requires s != nil && ch.account != nil && obj(s, *ch.account) != nil
+//@   ensures[C09] @restores obj(s, *ch.account).data.Nonce == ch.prev
+
+//@ func balanceChange.undo
+//@   requires s != nil && ch.account != nil && obj(s, *ch.account) != nil
+//@   ensures[C09] @restores obj(s, *ch.account).data.Balance == ch.prev
+
+//@ func refundChange.undo
+//@   requires s != nil
+//@   ensures[C09] @restores s.refund == ch.prev
+
+// Dirty tracking: an object whose onDirty callback was consumed (nil) must be in the dirty set,
+// otherwise later writes to it are never folded into the state root. Undoing a touch must
+// preserve this.
+//@ func touchChange.undo
+//@   requires s != nil && ch.account != nil && obj(s, *ch.account) != nil && s.stateObjectsDirty != nil
+//@   requires ch.account == addr(obj(s, *ch.account).address)
+//@   requires obj(s, *ch.account).onDirty == nil ==> has(s.stateObjectsDirty, *ch.account)
+//@   ensures[C09] @repinv obj(s, *ch.account).onDirty == nil ==> has(s.stateObjectsDirty, *ch.account)
+//@   ensures[C09] @restores !ch.prev && *ch.account != ripemd ==> obj(s, *ch.account).touched == ch.prev
+
+// Snapshot ids increase; reverting truncates the journal to the recorded length.
+//@ func StateDB.Snapshot
+//@   requires self != nil
+//@   ensures[C09] @id result == old(self.nextRevisionId) && self.nextRevisionId == old(self.nextRevisionId) + 1
+//@   ensures[C09] @rev len(self.validRevisions) == old(len(self.validRevisions)) + 1 && top(self.validRevisions).id == result && top(self.validRevisions).journalIndex == old(len(self.journal))
+//@   ensures[C09] @journal len(self.journal) == old(len(self.journal))
+//@   nopanic[C09]
+
+//@ func StateDB.AddRefund
+//@   requires self != nil
+//@   ensures[C09] @journal len(self.journal) == old(len(self.journal)) + 1 && typeis(top(self.journal), "state.refundChange")
+//@     && unbox(top(self.journal), "state.refundChange").prev == old(self.refund)
+//@   ensures[C09] @value self.refund == old(self.refund) + gas
+//@   ensures[C09] @older forall k int :: 0 <= k && k < old(len(self.journal)) ==> self.journal[k] == old(self.journal[k])
+//@   nopanic[C09]
+
+// Self-destruct journals the previous flag and a private copy of the previous balance (a shared
+// pointer could be mutated in place before the revert).
+//@ func StateDB.Suicide
+//@   requires self != nil && (obj(self, addr) != nil ==> obj(self, addr).data.Balance != nil)
+//@   ensures[C09] @journal result ==> len(self.journal) == old(len(self.journal)) + 1 && typeis(top(self.journal), "state.suicideChange")
+//@     && *unbox(top(self.journal), "state.suicideChange").account == addr
+//@     && unbox(top(self.journal), "state.suicideChange").prev == old(obj(self, addr).suicided)
+//@     && big(unbox(top(self.journal), "state.suicideChange").prevbalance) == old(big(obj(self, addr).data.Balance))
+//@     && unbox(top(self.journal), "state.suicideChange").prevbalance != old(obj(self, addr).data.Balance)
+//@   ensures[C09] @value result ==> obj(self, addr).suicided && big(obj(self, addr).data.Balance) == 0
+//@   ensures[C09] @absent result == (obj(self, addr) != nil) && (!result ==> len(self.journal) == old(len(self.journal)))
+
+//@ func suicideChange.undo
+//@   requires s != nil && ch.account != nil
+//@   ensures[C09] @restores obj(s, *ch.account) != nil ==> obj(s, *ch.account).suicided == ch.prev && obj(s, *ch.account).data.Balance == ch.prevbalance
+
+//@ func stateObject.SetState
+//@   requires self != nil && self.db != nil && self.cachedStorage != nil && self.dirtyStorage != nil
+//@   ensures[C09] @journal len(self.db.journal) == old(len(self.db.journal)) + 1 && typeis(top(self.db.journal), "state.storageChange")
+//@     && unbox(top(self.db.journal), "state.storageChange").account == addr(self.address)
+//@     && unbox(top(self.db.journal), "state.storageChange").key == key
+//@     && (old(has(self.cachedStorage, key)) ==> unbox(top(self.db.journal), "state.storageChange").prevalue == old(self.cachedStorage[key]))
+//@   ensures[C09] @value has(self.cachedStorage, key) && self.cachedStorage[key] == value && has(self.dirtyStorage, key) && self.dirtyStorage[key] == value
+
+//@ func storageChange.undo
+//@   requires s != nil && ch.account != nil && obj(s, *ch.account) != nil && obj(s, *ch.account).cachedStorage != nil && obj(s, *ch.account).dirtyStorage != nil
+//@   ensures[C09] @restores has(obj(s, *ch.account).cachedStorage, ch.key) && obj(s, *ch.account).cachedStorage[ch.key] == ch.prevalue
+//@     && has(obj(s, *ch.account).dirtyStorage, ch.key) && obj(s, *ch.account).dirtyStorage[ch.key] == ch.prevalue
+
+//@ func stateObject.SetCode
+//@   requires self != nil && self.db != nil
+//@   ensures[C09] @journal len(self.db.journal) == old(len(self.db.journal)) + 1 && typeis(top(self.db.journal), "state.codeChange")
+//@     && unbox(top(self.db.journal), "state.codeChange").account == addr(self.address)
+//@     && unbox(top(self.db.journal), "state.codeChange").prevhash == old(self.data.CodeHash)
+//@     && (old(self.code != nil) ==> unbox(top(self.db.journal), "state.codeChange").prevcode == old(self.code))
+//@   ensures[C09] @value self.code == code && self.dirtyCode
+
+//@ func codeChange.undo
+//@   requires s != nil && ch.account != nil && obj(s, *ch.account) != nil
+//@   ensures[C09] @restores obj(s, *ch.account).code == ch.prevcode && obj(s, *ch.account).dirtyCode
+
+//@ func createObjectChange.undo
+//@   requires s != nil && ch.account != nil && s.stateObjects != nil && s.stateObjectsDirty != nil
+//@   ensures[C09] @restores !has(s.stateObjects, *ch.account) && !has(s.stateObjectsDirty, *ch.account)
+
+//@ func StateDB.AddLog
+//@   requires self != nil && log != nil && self.logs != nil
+//@   ensures[C09] @journal len(self.journal) == old(len(self.journal)) + 1 && typeis(top(self.journal), "state.addLogChange")
+//@     && unbox(top(self.journal), "state.addLogChange").txhash == self.thash
+//@   ensures[C09] @value self.logSize == old(self.logSize) + 1 && has(self.logs, self.thash)
+//@   ensures[C09] @appended len(self.logs[self.thash]) == old(len(self.logs[self.thash])) + 1
+//@   ensures[C09] @last top(self.logs[self.thash]) == log
+
+//@ func addLogChange.undo
+//@   requires s != nil && s.logs != nil && has(s.logs, ch.txhash) && len(s.logs[ch.txhash]) >= 1
+//@   ensures[C09] @restores s.logSize == old(s.logSize) - 1
+//@     && (old(len(s.logs[ch.txhash])) == 1 ==> !has(s.logs, ch.txhash))
+//@     && (old(len(s.logs[ch.txhash])) > 1 ==> has(s.logs, ch.txhash) && len(s.logs[ch.txhash]) == old(len(s.logs[ch.txhash])) - 1)
+//@   nopanic[C09]
+
+// Ghost count of undo calls: RevertToSnapshot must undo every entry above the snapshot exactly
+// once (the count is a specification device; the entries' own effects are the contracts above).
+//@ ghost undone (_ BitVec 64)
+//@ type journalEntry.undo
+//@   trusted
+//@   ensures undone == old(undone) + 1
+//@   assigns undone, inferred
+
+// Reverting to a live snapshot id runs every younger entry's undo, truncates the journal to the
+// length recorded by Snapshot and drops that snapshot and all younger ones.
+//@ func StateDB.RevertToSnapshot
+//@   requires self != nil
+//@   requires forall k int :: 0 <= k && k < len(self.validRevisions) ==> 0 <= self.validRevisions[k].journalIndex && self.validRevisions[k].journalIndex <= len(self.journal)
+//@   ensures[C09] @truncate len(self.validRevisions) < old(len(self.validRevisions))
+//@     && (forall k int :: k == len(self.validRevisions) ==> old(self.validRevisions[k].id) == revid && len(self.journal) == old(self.validRevisions[k].journalIndex))
+//@   ensures[C09] @older forall k int :: 0 <= k && k < len(self.validRevisions) ==> self.validRevisions[k] == old(self.validRevisions[k])
+//@   ensures[C09] @all undone == old(undone) + (old(len(self.journal)) - len(self.journal))
+//@   loop 1 invariant[C09] self.journal == old(self.journal) && self.validRevisions == old(self.validRevisions)
+//@     && snapshot <= i + 1 && i + 1 <= len(self.journal) && undone == old(undone) + (len(self.journal) - 1 - i)
+
+// Creating an object journals either its creation (no previous object) or the object it replaces.
+//@ func StateDB.createObject
+//@   requires self != nil && self.stateObjects != nil && self.stateObjectsDirty != nil
+//@   ensures[C09] @journal len(self.journal) == old(len(self.journal)) + 1
+//@   ensures[C09] @created prev == nil ==> typeis(top(self.journal), "state.createObjectChange") && *unbox(top(self.journal), "state.createObjectChange").account == addr
+//@   ensures[C09] @reset prev != nil ==> typeis(top(self.journal), "state.resetObjectChange") && unbox(top(self.journal), "state.resetObjectChange").prev == prev
+//@   ensures[C09] @value prev == obj(self, addr) && newobj != nil && fresh(newobj) && newobj.address == addr && newobj.data.Nonce == 0
+//@     && has(self.stateObjects, addr) && self.stateObjects[addr] == newobj
+//@   ensures[C09] @older forall k int :: 0 <= k && k < old(len(self.journal)) ==> self.journal[k] == old(self.journal[k])
+
+//@ func resetObjectChange.undo
+//@   requires s != nil && ch.prev != nil && s.stateObjects != nil
+//@   ensures[C09] @restores has(s.stateObjects, ch.prev.address) && s.stateObjects[ch.prev.address] == ch.prev
+
+// A copied object reads back identically: same address, nonce, balance, code and flags.
+//@ func stateObject.deepCopy
+//@   requires self != nil && db != nil
+//@   ensures[C09] @same result != nil && fresh(result) && result.address == self.address && result.data.Nonce == self.data.Nonce
+//@     && result.code == self.code && result.suicided == self.suicided && result.dirtyCode == self.dirtyCode && result.deleted == self.deleted
+//@     && (self.data.Balance != nil ==> result.data.Balance == self.data.Balance)
+//@     && (self.data.CodeHash != nil ==> result.data.CodeHash == self.data.CodeHash)
+//@     && result.data.Root == self.data.Root
